@@ -32,6 +32,7 @@ class Machine:
         self.subject = None
         self.slots = []
         self.delivered = []
+        self.pre_hook = None      # called on every freshly built Indicator object BEFORE it is registered / calculated
 
     # ------------------------------------------------------------------ construction
     def hexital_kwargs(self):
@@ -66,6 +67,8 @@ class Machine:
         members = self.cfg["members"] if members is None else members
         if self.kind == "indicator":
             ind = build(members[0], rows)
+            if self.pre_hook:
+                self.pre_hook(ind)
             return ind, [Slot(members[0], ind)]
         inds, given = [], []
         for k, m in enumerate(members):
@@ -75,6 +78,8 @@ class Machine:
                 inds.append(None)
             else:
                 obj = build(m)
+                if self.pre_hook:
+                    self.pre_hook(obj)
                 given.append(obj)
                 inds.append(obj)
         hx = Hexital("sim", mk_candles(rows), given, **self.hexital_kwargs())
